@@ -332,14 +332,7 @@ func c17Mirror(c *Ctx) {
 							return true
 						})
 					}
-					// (an index the path resolved to the loop's first iteration cannot be compared with a symbolic one)
-					nSym := 0
-					for k := range elems {
-						if strings.Contains(k, "loop:") {
-							nSym++
-						}
-					}
-					ok = len(elems) <= 1 || nSym != len(elems)
+					ok = len(elems) <= 1
 				}
 			}
 			key := fn + ":series:" + name
